@@ -63,12 +63,27 @@ def full_view(sig):
     return (canon_params(sig), sources_view(sig))
 
 
+_CRASHES = []
+
+
 def do_mask(sig, n, names, flags=None):
     from sigtools import signatures
     try:
         return signatures.mask(sig, n, *names, **(flags or {}))
     except ValueError:
         return None
+    except Exception as e:
+        # mask only ever raises ValueError: anything else is recorded (flushed by the caller) and counts as a raise
+        _CRASHES.append((type(e).__name__, 'mask(%s, %d%s%s) raised %s: %s' % (
+            sig, n, ''.join(', %r' % x for x in names), ''.join(', %s=True' % k for k, v in (flags or {}).items() if v), type(e).__name__, e),
+            {'op': 'mask', 'spec': [list(p) for p in universe.spec_from_sig(sig)], 'n': n, 'names': list(names), 'flags': dict(flags or {})}))
+        return None
+
+
+def flush_crashes(stats):
+    while _CRASHES:
+        t, msg, case = _CRASHES.pop()
+        stats.fail('C03/raised-%s' % t, case, msg)
 
 
 def feasible(b, view, n, names):
@@ -252,7 +267,12 @@ def check_flagged(spec, sig, n, names, fl, shapes, stats, enum):
 
 
 def cand_names(spec, foreign=('q',)):
-    return [p.name for p in spec if p.kind in (POK, KWO)] + list(foreign)
+    """Names that may be passed by keyword: keyword-passable parameters, a foreign name, and -- when **kwargs can
+    absorb it -- the spelling of the *args parameter (it is just another keyword then)."""
+    out = [p.name for p in spec if p.kind in (POK, KWO)] + list(foreign)
+    if any(p.kind == VK for p in spec):
+        out += [p.name for p in spec if p.kind == VP]
+    return out
 
 
 def work_sig(spec, stats, shapes, enum=True):
@@ -264,12 +284,14 @@ def work_sig(spec, stats, shapes, enum=True):
             for combo in itertools.combinations(cand, r):
                 check_plain(spec, sig, n, combo, list(itertools.permutations(combo)), shapes, stats, enum)
     check_laws(spec, sig, stats)
+    flush_crashes(stats)
     for n in range(L + 2):
         for r in range(min(len(cand), 2) + 1):
             for names in itertools.combinations(cand, r):
                 for fl in itertools.product((False, True), repeat=4):
                     if any(fl):
                         check_flagged(spec, sig, n, names, fl, shapes, stats, enum)
+    flush_crashes(stats)
 
 
 def shard(arg):
@@ -314,6 +336,7 @@ def check_hyp(case, stats):
             perms.append(tuple(reversed(names)))
             perms.append(names[1:] + names[:1])
         check_plain(spec, sig, case['n'], tuple(sorted(names)), perms, shapes, stats, False)
+    flush_crashes(stats)
 
 
 _hs = {}
